@@ -9,6 +9,7 @@
  *                                     (mask&2) (SIGPIPE at its default: a pipe without reader kills the child; a failed
  *                                     write gives exit code 99), create the file <marker>, return <code>
  *   @spam <mask>                      write to stdout (mask&1) / stderr (mask&2) without end (blocks when the pipe is full)
+ *   @two <nout> <nerr> <hold>         write <nout> bytes 'o' to stdout and <nerr> bytes 'e' to stderr; hold != 0: sleep until killed
  *   @raise <signal>                   terminate by the signal
  *   anything else                     echo: `argv <hex>...` and `env <hex>...` (the whole environment, in the order
  *                                     received) on stdout; return 42
@@ -106,6 +107,23 @@ int main(int argc, char** argv)
       if(!(mask & 3))
         pause();
     }
+  }
+  if(argc > 4 && !strcmp(argv[1], "@two"))
+  {
+    static unsigned char block[65536];
+    size_t nout = (size_t)atol(argv[2]), nerr = (size_t)atol(argv[3]);
+    if(nout > sizeof(block) || nerr > sizeof(block))
+      return 96;
+    memset(block, 'o', sizeof(block));
+    if(nout && writeAll(1, block, nout) != 0)
+      return 3;
+    memset(block, 'e', sizeof(block));
+    if(nerr && writeAll(2, block, nerr) != 0)
+      return 3;
+    if(atoi(argv[4]))
+      for(;;)
+        pause();
+    return 0;
   }
   if(argc > 2 && !strcmp(argv[1], "@raise"))
   {
